@@ -5,6 +5,7 @@ collection operations are exactly the documented ones.
 -/
 import Gkv.Proofs.Machine
 import Gkv.Props.C10
+import Gkv.Gen.Cas
 open Std
 
 namespace Gkv.Props.C12
@@ -45,5 +46,21 @@ theorem replaced_handles_safe (F : Nat → Nat → Prop) (s : Gkv.Versions.St) (
 #guard absS (srun (fun _ => .bytes)
     [.setColl [97], .set [97] ⟨[1], [2], 3⟩, .setColl [97], .setColl [98], .rmColl [97], .setColl [97]])
     == [([97], []), ([98], [])]
+
+
+/-! ### the collection map is updated by compare-and-swap against what was read (regenerated table)
+
+`Gen/Cas.lean` is rewritten from /repo's source on every run: one row per call `_.casColl(x, y)`.
+The obligation: the sites are exactly the four reviewed ones, and at each the compared pointer `x`
+is an identifier whose only definition is `x := _.getColl()`, placed before the call and inside
+the same retry loop, and every `copyColl` of that function copies from `x` (never from a second
+`getColl()`).  That is what makes each update "publish only if nobody published since I read".
+It is a syntactic fact about the code, tied to C12's clause "none of these operations disturbs
+other collections"; the concurrent reading of that clause (two goroutines updating the map) is
+outside C12's quantifier (histories only), which is why this is an obligation and not a stream. -/
+theorem cas_compares_what_was_read :
+    Gen.Cas.sites.map (·.1) =
+      ["Store.Close", "Store.FlushRevert", "Store.RemoveCollection", "Store.SetCollection"] ∧
+    ∀ r ∈ Gen.Cas.sites, r.2 = (true, true, true, true, true) := by decide
 
 end Gkv.Props.C12
